@@ -174,17 +174,31 @@ def main(ctx):
 
     common.log("running fontc on %d inputs" % len(runs))
 
-    def run(item):
-        label, src, cyclic, sig = item
-        out = os.path.join(os.path.dirname(src), "out.ttf")
-        o = common.run_fontc(src, out, timeout=40)
-        if o["how"] == "timedout":
-            # a loaded machine is not a hang: only a run that also exceeds a very generous limit counts
-            o = common.run_fontc(src, out, timeout=900)
-            o["retried"] = True
-        return o
+    def run_with(timeout):
+        def run(item):
+            label, src, cyclic, sig = item
+            out = os.path.join(os.path.dirname(src), "out.ttf")
+            return common.run_fontc(src, out, timeout=timeout)
+        return run
 
-    observations = common.parallel(run, runs, procs=8)
+    observations = common.parallel(run_with(40), runs, procs=8)
+    # A loaded machine is not a hang. Re-run a few of the timed-out inputs with a limit far beyond what the
+    # completed runs needed; only if those finish is the machine merely slow, and then all of them are re-run.
+    timed = [i for i, o in enumerate(observations) if o["how"] == "timedout"]
+    if timed:
+        walls = sorted(o["wall"] for o in observations if o["how"] != "timedout") or [1.0]
+        long_t = int(max(180, 150 * walls[len(walls) // 2]))
+        probe = timed[:6]
+        for i, o in zip(probe, common.parallel(run_with(long_t), [runs[i] for i in probe], procs=6)):
+            o["retried"] = long_t
+            observations[i] = o
+        if any(observations[i]["how"] != "timedout" for i in probe):
+            rest = timed[6:]
+            for i, o in zip(rest, common.parallel(run_with(long_t), [runs[i] for i in rest], procs=8)):
+                o["retried"] = long_t
+                observations[i] = o
+        ev.extra["timeouts_first_pass"] = len(timed)
+        ev.extra["long_timeout_s"] = long_t
     obs_path = ctx.path("obs.ndjson")
     with open(obs_path, "w") as f:
         for (label, src, cyclic, sig), o in zip(runs, observations):
